@@ -14,8 +14,12 @@ def tweak(world, rng):
     nodes = {n["p"]: n for n in world["nodes"]}
     uid = world["uid"]
     v = rng.choice(world["mounts"])
+    how = rng.choice(["nonsticky", "link-sticky", "link-nonsticky"] + (["link-other-volume"] * 2 if len(world["mounts"]) > 1 else []))
+    if how == "link-other-volume":
+        # (the volume with the link comes AFTER the one whose .Trash it points to, most of the time: whatever a command
+        #  remembers about the first must not speak for the second)
+        v = rng.choice(world["mounts"][1:]) if rng.random() < 0.8 else v
     t = v + b"/.Trash"
-    how = rng.choice(["nonsticky", "link-sticky", "link-nonsticky"] + (["link-other-volume"] if len(world["mounts"]) > 1 else []))
     for q in [q for q in nodes if q == t or q.startswith(t + b"/")]:
         del nodes[q]
     mt = 1000000400
@@ -73,7 +77,8 @@ def other_volume(world, rng, nodes, v, mt):
     is judged on its own (a link is refused, wherever it leads); the entries behind it belong to the other volume only"""
     from ..model import cmd_argv
     uid = world["uid"]
-    a = rng.choice([m for m in world["mounts"] if m != v])
+    earlier = [m for m in world["mounts"][:world["mounts"].index(v)] if m != v]
+    a = rng.choice(earlier) if earlier and rng.random() < 0.8 else rng.choice([m for m in world["mounts"] if m != v])
     ta = a.rstrip(b"/") + b"/.Trash"
     for q in [q for q in nodes if q == ta or q.startswith(ta + b"/")]:
         del nodes[q]
